@@ -1,0 +1,30 @@
+//go:build verif
+
+package client
+
+// Contracts for the verification machinery in /verif (comment-only file; no code).
+// Genesis round trip of the client submodule (C13): export takes every field from the keeper's reader of that
+// family, import writes every exported element back through the setter of its family, with the exported arguments.
+//
+// verif:import types github.com/teleport-network/teleport/x/xibc/core/client/types
+
+// verif:func ExportGenesis
+//@ modifies xibc(ctx)
+//@ callsite GetAllClientMetadata [metadata-of-exported-clients] genClients == callres("GetAllGenesisClients", 0)
+//@ ensures [clients]   result.Clients == callres("GetAllGenesisClients", 0)
+//@ ensures [metadata]  result.ClientsMetadata == callres("GetAllClientMetadata", 0)
+//@ ensures [consensus] result.ClientsConsensus == callres("GetAllConsensusStates", 0)
+//@ ensures [chain-name] result.NativeChainName == k.GetChainName(ctx)
+//@ ensures [relayers]  result.Relayers == callres("GetAllRelayers", 0)
+
+// verif:func InitGenesis
+//@ modifies world(ctx)
+//@ callsite SetAllClientMetadata [metadata-as-exported] genMetadata == gs.ClientsMetadata
+//@ callsite SetClientState [client-as-exported] chainName == client.ChainName && clientState == client.ClientState.GetCachedValue()
+//@ loop 1 continue [each-client-once] ncalls("SetClientState") == 1
+//@ callsite SetClientConsensusState [consensus-as-exported] chainName == cs.ChainName && as(height, types.Height) == consState.Height && consensusState == consState.ConsensusState.GetCachedValue()
+//@ loop 3 continue [each-consensus-state-once] ncalls("SetClientConsensusState") == 1
+//@ callsite RegisterRelayers [relayer-as-exported] address == rs.Address && chains == rs.Chains && addresses == rs.Addresses
+//@ loop 4 continue [each-relayer-once] ncalls("RegisterRelayers") == 1
+//@ callsite SetChainName [chain-name-as-exported] chainName == gs.NativeChainName
+//@ ensures [everything-imported] loopCompleted(1) && loopCompleted(2) && loopCompleted(4) && ncalls("SetChainName") == 1
